@@ -28,6 +28,7 @@ type HarnessResult struct {
 	Paths        int                    `json:"paths"`
 	Steps        int                    `json:"steps"`
 	Forks        int                    `json:"forks"`
+	IfConv       int                    `json:"branches_merged_by_if_conversion"`
 	Obligations  int                    `json:"obligations"`
 	Discharged   int                    `json:"discharged"`
 	Trivial      int                    `json:"trivial"`
@@ -110,6 +111,7 @@ func RunHarness(ld *Loaded, key, name string, opt RunOpts, stats *SolverStats) *
 	res.Paths = len(r.paths)
 	res.Steps = r.steps
 	res.Forks = r.forks
+	res.IfConv = r.ifconv
 	res.Obligations = r.obligations
 	res.Discharged = r.discharged
 	res.Trivial = r.trivial
